@@ -1,13 +1,33 @@
 import IbModel.Model.Planner
 import IbModel.Model.Closures
 import IbModel.Generated.Tables
+import IbModel.Proofs.PlanSem
+import IbModel.Proofs.LiftPair
+import IbModel.Props.C01
+import IbModel.Props.C02
 /-!
 # C03 — plan optimisation never changes what a pipeline computes
 
-Structural legality of the four passes ("a legal rewrite"), stated for EVERY chain over every partition
-type. The semantic theorems (`fuse_sem`, `reorder_sem_partial`, lift/drop semantics and their
-composition) are in `Props/C02.lean` / `Props/C05.lean`; the negation witnesses of the value-only
-reorder pass are in `Props/C02.lean`.
+Part 1 — structural legality of the four passes ("a legal rewrite"), stated for EVERY chain over every
+partition type.
+
+Part 2 — semantics, `exec(optimise(chain)) == exec(chain)`:
+* `fuse`: no hypothesis (`IB.C02.fuse_sem`, `fuse_sem'`); used here in the composition;
+* `liftGbk`: `lift_pair_sem` — for EVERY lawful combiner and EVERY input partition the
+  GBK→lifted-combine window and the direct combine return literally the same partition;
+  `liftPairsOK_of_shape` / `liftPairsOK_of_built` — hence every window the builders can create is liftable,
+  also after `fuse` and `reorder`; `liftGbk_sem_builder`;
+* `dropMid`: `dropMid_sem_of_restating_markers` (GENERAL: sound for every chain whose non-terminal markers
+  restate the flowing value — `MidMatOK`), `dropMid_unsound_for_other_markers` (NEGATION witness: for any
+  other marker the pass changes the result), `dropMid_builder_id` (builder chains contain no marker and no
+  earlier pass creates one, so there the pass is the identity);
+* `reorder`: sound only where it is inert / permutes commuting blocks. The full statement
+  "`execSeq (optimise c) = execSeq c` for every builder chain" is FALSE for the code that exists — the known
+  value-only reorder finding (`IB.C02.reorder_breaks_order`, restated for builder chains below as
+  `optimise_sem_builder_full_is_false`). Proved instead: `optimise_sem_builder_partial` (under
+  `ReorderInert`), `optimise_sem_builder_commuting_partial` (under the weaker `CommutingChain (fuse …)`), their
+  parallel corollaries for every partition count, and the general `optimise_sem_general_partial` for
+  arbitrary (synthetic) chains.
 -/
 namespace IB
 variable {P : Type}
@@ -175,5 +195,299 @@ theorem trait_defaults_conservative :
     Generated.dynOpDefaults =
       [(false, false, false, 10), (false, true, false, 10), (true, false, false, 10), (true, true, false, 10)] ∧
     Generated.bareOpFlags = ⟨false, false, false, 10⟩ := by decide
+
+end IB
+
+/-! # Part 2 — semantics: exec(optimise(chain)) == exec(chain) -/
+
+namespace IB
+open C02W
+
+/-! ## the GBK → lifted-combine window -/
+
+/-- C03 (lift, the window law): "a group-then-combine pair is replaced by a direct combine only when
+    both give the same per-key result". For EVERY lawful combiner `c` (any accumulator equivalence `R`)
+    and EVERY partition `b`: running `group_by_key` and then the lifted local (`build_from_group` per
+    group) on its output gives — after the combine's merge + finish — literally the partition the classic
+    local (`add_input` row by row) gives on the raw rows: the same keys in first-occurrence order and, per
+    key, `finish` of the fold over that key's values in input order. Uses `build_fold`/`finish_congr` of
+    `LawfulCombiner`, "GBK never emits an empty group" and "GBK emits one group per key" (C04). -/
+theorem lift_pair_sem {c : VCombiner} {R : Val → Val → Prop} (hc : LawfulCombiner c R) :
+    ∀ b : Part, combineMerge c [combineLocalGroups c (gbkMerge [gbkLocal b])]
+      = combineMerge c [combineLocalPairs c b] :=
+  lift_pair_core hc
+
+/-- … so the builders' window meets the hypothesis of `liftGbk_sem` (`LiftPairsOK`) -/
+theorem lift_pair_ok {c : VCombiner} {R : Val → Val → Prop} (hc : LawfulCombiner c R)
+    (rest : List (Node Part)) (hr : LiftPairsOK rest) :
+    LiftPairsOK (gbkNode :: combineValuesLiftedNode c :: rest) :=
+  ⟨lift_pair_sem hc, hr⟩
+
+/-- C03 (lift, any synthetic chain of the builders' closures): if every `GroupByKey` node of a chain is
+    the builders' `gbkNode` and every combine carrying `local_groups` is `combineValuesLiftedNode c` for a
+    lawful `c` (`LiftShape`; all other nodes — custom operators, markers, joins, non-lifted combines — are
+    unconstrained), every window the lift pass can rewrite is semantically liftable: in the chain itself,
+    after fusion, and after fusion + reorder (what the pass actually runs on). -/
+theorem liftPairsOK_of_shape (ch : List (Node Part)) (h : LiftShape ch) :
+    LiftPairsOK ch ∧ LiftPairsOK (fuse ch) ∧ LiftPairsOK (reorder (fuse ch)) :=
+  ⟨IB.liftPairsOK_of_shape' ch h, IB.liftPairsOK_of_shape' _ (liftShape_fuse ch h),
+   IB.liftPairsOK_of_shape' _ (liftShape_reorder _ (liftShape_fuse ch h))⟩
+
+/-- every builder-made node has the shape -/
+theorem liftShapeNode_of_built {nd : Node Part} (h : Built nd) : LiftShapeNode nd := by
+  cases h with
+  | sub h =>
+    cases h with
+    | stateless ops h => trivial
+    | gbk => exact ⟨rfl, rfl⟩
+    | combineValues c R hc => trivial
+    | combineValuesLifted c R hc => exact ⟨c, R, hc, rfl, rfl, rfl⟩
+    | combineGlobal c R hc fo => trivial
+    | combineGlobalLifted c R hc fo => trivial
+  | join k xs ys l r hl hr => trivial
+
+/-- C03 (lift, builder chains): for every chain of builder-made nodes — with or without its source —
+    `LiftPairsOK` holds, also for `reorder (fuse chain)`. -/
+theorem liftPairsOK_of_built (rest : List (Node Part)) (h : ∀ nd ∈ rest, Built nd) :
+    LiftPairsOK rest ∧ LiftPairsOK (reorder (fuse rest)) ∧
+    ∀ xs, LiftPairsOK (vecSource xs :: rest) ∧ LiftPairsOK (reorder (fuse (vecSource xs :: rest))) := by
+  have hs : LiftShape rest := fun nd hnd => liftShapeNode_of_built (h nd hnd)
+  refine ⟨(liftPairsOK_of_shape rest hs).1, (liftPairsOK_of_shape rest hs).2.2, fun xs => ?_⟩
+  have hs' : LiftShape (vecSource xs :: rest) := by
+    intro nd hnd
+    rcases List.mem_cons.mp hnd with rfl | hnd
+    · trivial
+    · exact hs nd hnd
+  exact ⟨(liftPairsOK_of_shape _ hs').1, (liftPairsOK_of_shape _ hs').2.2⟩
+
+/-- C03 (lift, semantics on builder chains): the lift pass applied where the planner applies it (after
+    fusion and reorder) never changes the sequential result of a builder chain — no hypothesis. -/
+theorem liftGbk_sem_builder (xs : List Val) (rest : List (Node Part)) (h : ∀ nd ∈ rest, Built nd) :
+    execSeq (liftGbk (reorder (fuse (vecSource xs :: rest)))) = execSeq (reorder (fuse (vecSource xs :: rest))) ∧
+    execSeq (liftGbk (vecSource xs :: rest)) = execSeq (vecSource xs :: rest) :=
+  ⟨liftGbk_sem _ ((liftPairsOK_of_built rest h).2.2 xs).2, liftGbk_sem _ ((liftPairsOK_of_built rest h).2.2 xs).1⟩
+
+/-! ## mid-chain `Materialized` markers -/
+
+section general
+variable {P : Type}
+
+/-- C03 (drop, GENERAL — any chain, any partition type, synthetic chains with mid-chain `Materialized`
+    included): if every NON-TERMINAL marker `materialized p` restates the value flowing at that point —
+    `MidMatOK c`: for each split `c = pre ++ materialized p :: post` with `post ≠ []`,
+    `seqFold none pre = .ok (some p)` — dropping the mid-chain markers does not change the result. -/
+theorem dropMid_sem_of_restating_markers (c : List (Node P)) (h : MidMatOK c) :
+    execSeq (dropMid c) = execSeq c :=
+  dropMid_sem_of_midMatOK c h
+
+/-- the hypothesis holds trivially for chains without markers -/
+theorem midMatOK_of_no_marker (c : List (Node P)) (h : ∀ n ∈ c, Node.isMat n = false) : MidMatOK c :=
+  midMatOK_of_noMat none c h
+
+/-- C03 (whole optimiser, GENERAL — any chain over any partition type): under (1) the reorder pass only
+    permuting blocks that compute the same function either way, (2) liftable windows and (3) restating
+    markers, the planned chain computes what the literal chain computes. PARTIAL in (1) — see
+    `optimise_sem_builder_full_is_false`; (2) and (3) are discharged for all builder chains below. -/
+theorem optimise_sem_general_partial (c : List (Node P)) (hcomm : CommutingChain (fuse c))
+    (hlift : LiftPairsOK (reorder (fuse c))) (hmat : MidMatOK (liftGbk (reorder (fuse c)))) :
+    execSeq (optimise c) = execSeq c :=
+  optimise_sem_of c hcomm hlift hmat
+
+end general
+
+/-- NEGATION witness for (3) — dropping a mid-chain marker is ONLY sound for markers that restate the
+    flowing value: on `source [1]; materialized [2]; stateless []` the literal run continues from the
+    marker's payload and returns `[2]`, while `dropMid` removes the marker and the run returns `[1]`.
+    (The chain violates `MidMatOK`: the fold before the marker holds `[1]`, not `[2]`.) -/
+theorem dropMid_unsound_for_other_markers :
+    let c : List (Node Part) := [vecSource [.int 1], .materialized [.int 2], .stateless []]
+    execSeq c = .ok [.int 2] ∧ execSeq (dropMid c) = .ok [.int 1] ∧
+    execSeq (dropMid c) ≠ execSeq c ∧ ¬ MidMatOK c := by
+  refine ⟨rfl, rfl, ?_, ?_⟩
+  · intro h
+    exact absurd (Except.ok.inj h) (by decide)
+  · intro h
+    have := h [vecSource [.int 1]] [.int 2] [.stateless []] rfl (by simp)
+    exact absurd (Option.some.inj (Except.ok.inj this)) (by decide)
+
+/-- non-vacuity of `dropMid_sem_of_restating_markers`: a chain WITH a non-terminal marker that restates
+    the flowing value meets `MidMatOK`, and the pass really removes the marker -/
+example :
+    let c : List (Node Part) := [vecSource [.int 1], .materialized [.int 1], .stateless []]
+    MidMatOK c ∧ (dropMid c).length = 2 := by
+  refine ⟨?_, rfl⟩
+  intro pre p post hc hpost
+  match pre, hc with
+  | [], hc => simp [vecSource] at hc
+  | [_], hc =>
+    simp only [List.cons_append, List.nil_append, List.cons.injEq, Node.materialized.injEq] at hc
+    obtain ⟨rfl, rfl, _⟩ := hc
+    rfl
+  | [_, _], hc =>
+    simp only [List.cons_append, List.nil_append, List.cons.injEq] at hc
+    exact absurd hc.2.2.1 (by simp)
+  | _ :: _ :: _ :: _, hc => simp at hc
+
+/-- no builder-made node is a marker -/
+theorem built_not_materialized {nd : Node Part} (h : Built nd) : Node.isMat nd = false := by
+  cases h with
+  | sub h => cases h <;> rfl
+  | join k xs ys l r hl hr => rfl
+
+/-- C03 (drop, builder chains): no builder creates a `Materialized` node and neither `fuse`, `reorder` nor
+    `liftGbk` creates one, so on every builder chain the last pass is the identity. -/
+theorem dropMid_builder_id (xs : List Val) (rest : List (Node Part)) (h : ∀ nd ∈ rest, Built nd) :
+    dropMid (liftGbk (reorder (fuse (vecSource xs :: rest)))) = liftGbk (reorder (fuse (vecSource xs :: rest))) := by
+  apply dropMid_of_noMat
+  apply noMat_before_dropMid
+  intro n hn
+  rcases List.mem_cons.mp hn with rfl | hn
+  · rfl
+  · exact built_not_materialized (h n hn)
+
+/-! ## the composition -/
+
+/-- C03, PARTIAL (sequential): `exec(optimise(chain)) == exec(chain)` for EVERY builder chain — any
+    source vector, element-wise blocks, group_by_key, lifted and non-lifted per-key combines and global
+    combines with any lawful combiner, joins — on which the value-only reorder pass is inert.
+
+    The FULL statement (without `ReorderInert`) is FALSE for the code that exists: the known reorder
+    finding, negation witnesses `IB.C02.reorder_breaks_order` and `optimise_sem_builder_full_is_false`
+    below. The other three passes need no hypothesis (`fuse_sem'`, `liftGbk_sem_builder`,
+    `dropMid_builder_id`). -/
+theorem optimise_sem_builder_partial (xs : List Val) (rest : List (Node Part))
+    (h : ∀ nd ∈ rest, Built nd) (hin : ReorderInert (vecSource xs :: rest)) :
+    execSeq (optimise (vecSource xs :: rest)) = execSeq (vecSource xs :: rest) := by
+  unfold optimise
+  rw [dropMid_builder_id xs rest h, (liftGbk_sem_builder xs rest h).1,
+    reorder_sem_of_commuting _ (commuting_of_inert _ hin), fuse_sem']
+
+/-- C03, PARTIAL, weaker hypothesis: the reorder pass may permute blocks as long as every permuted block
+    computes the same function (`CommutingChain` of the fused chain: sorted blocks, and blocks whose swapped
+    operators commute). -/
+theorem optimise_sem_builder_commuting_partial (xs : List Val) (rest : List (Node Part))
+    (h : ∀ nd ∈ rest, Built nd) (hc : CommutingChain (fuse (vecSource xs :: rest))) :
+    execSeq (optimise (vecSource xs :: rest)) = execSeq (vecSource xs :: rest) := by
+  unfold optimise
+  rw [dropMid_builder_id xs rest h, (liftGbk_sem_builder xs rest h).1,
+    reorder_sem_of_commuting _ hc, fuse_sem']
+
+/-- C03, PARTIAL (parallel, with C01): for every partition count `n`, `collect_par` on the PLANNED chain
+    returns what the literal chain returns sequentially. -/
+theorem optimise_sem_builder_par_partial (xs : List Val) (rest : List (Node Part))
+    (h : ∀ nd ∈ rest, Built nd) (hin : ReorderInert (vecSource xs :: rest)) :
+    ∀ n, execPar List.flatten (optimise (vecSource xs :: rest)) n = execSeq (vecSource xs :: rest) := by
+  intro n
+  rw [C01_pipeline xs rest h n, optimise_sem_builder_partial xs rest h hin]
+
+/-- … and what the literal chain returns in parallel with ANY other partition count `m`: all four runs
+    (planned/literal × seq/par) agree. -/
+theorem optimise_sem_builder_par_par_partial (xs : List Val) (rest : List (Node Part))
+    (h : ∀ nd ∈ rest, Built nd) (hin : ReorderInert (vecSource xs :: rest)) :
+    ∀ n m, execPar List.flatten (optimise (vecSource xs :: rest)) n
+      = execPar List.flatten (vecSource xs :: rest) m := by
+  intro n m
+  rw [optimise_sem_builder_par_partial xs rest h hin n, C01_pipeline_literal xs rest h m]
+
+theorem optimise_sem_builder_par_commuting_partial (xs : List Val) (rest : List (Node Part))
+    (h : ∀ nd ∈ rest, Built nd) (hc : CommutingChain (fuse (vecSource xs :: rest))) :
+    ∀ n, execPar List.flatten (optimise (vecSource xs :: rest)) n = execSeq (vecSource xs :: rest) := by
+  intro n
+  rw [C01_pipeline xs rest h n, optimise_sem_builder_commuting_partial xs rest h hc]
+
+/-- NEGATION of the full statement (the known value-only reorder finding, `IB.C02.reorder_breaks_order`,
+    restated on a builder chain): `[("k",1),("k",2)].map_values(+1).filter_values(even)` — literal `[(k,2)]`,
+    planned `[(k,3)]`. So `ReorderInert` / `CommutingChain` cannot be dropped above. -/
+theorem optimise_sem_builder_full_is_false :
+    ∃ (xs : List Val) (rest : List (Node Part)), (∀ nd ∈ rest, Built nd) ∧
+      execSeq (optimise (vecSource xs :: rest)) ≠ execSeq (vecSource xs :: rest) := by
+  refine ⟨[kv 0 1, kv 0 2], [EStep.mapValues add1, .filterValues isEven].map EStep.toNode, ?_, ?_⟩
+  · intro nd hnd
+    simp only [List.map_cons, List.map_nil, List.mem_cons, List.mem_nil_iff, or_false] at hnd
+    rcases hnd with rfl | rfl
+    · refine .sub (.stateless _ ?_)
+      intro op hop ps
+      simp only [List.mem_singleton] at hop
+      subst hop
+      exact toOp_flatten (.mapValues add1) trivial ps
+    · refine .sub (.stateless _ ?_)
+      intro op hop ps
+      simp only [List.mem_singleton] at hop
+      subst hop
+      exact toOp_flatten (.filterValues isEven) trivial ps
+  · rw [IB.C02.reorder_witness_filter.2.2, IB.C02.reorder_witness_filter.2.1]
+    intro h
+    exact absurd (Except.ok.inj h) (by decide)
+
+/-! ## non-vacuity: concrete builder chains with a GBK → lifted-combine window -/
+
+/-- the chain `map_values(+1); group_by_key; combine_values_lifted(Sum)`: it is builder-made, the reorder
+    pass is inert on it, the optimiser really rewrites it (4 nodes → 3, the GBK is gone) and both runs
+    return the per-key sums -/
+example :
+    let rest : List (Node Part) :=
+      [.stateless [mapValuesOp add1], gbkNode, combineValuesLiftedNode Comb.sum.toCombiner]
+    let xs : List Val := [kv 1 10, kv 2 20, kv 1 30]
+    (∀ nd ∈ rest, Built nd) ∧ ReorderInert (vecSource xs :: rest) ∧
+    (optimise (vecSource xs :: rest)).map Node.kind = ["Source", "Stateless1", "CombineValues"] ∧
+    (vecSource xs :: rest).map Node.kind = ["Source", "Stateless1", "GroupByKey", "CombineValues+lifted"] ∧
+    execSeq (vecSource xs :: rest) = .ok [kv 1 42, kv 2 21] ∧
+    execSeq (optimise (vecSource xs :: rest)) = .ok [kv 1 42, kv 2 21] := by
+  refine ⟨?_, ?_, by decide, by decide, ?_, ?_⟩
+  · intro nd hnd
+    simp only [List.mem_cons, List.mem_nil_iff, or_false] at hnd
+    rcases hnd with rfl | rfl | rfl
+    · refine .sub (.stateless _ ?_)
+      intro op hop ps
+      simp only [List.mem_singleton] at hop
+      subst hop
+      show List.map _ ps.flatten = (ps.map (List.map _)).flatten
+      rw [List.map_flatten]
+    · exact .sub .gbk
+    · exact .sub (.combineValuesLifted _ Eq lawful_sum)
+  · show InertChain (fuse _)
+    simp [vecSource, fuse, gbkNode, combineValuesLiftedNode, InertChain, BlockInert]
+  · exact congrArg Except.ok (by decide)
+  · exact congrArg Except.ok (by decide)
+
+/-- a chain whose fused block `[filter_values, map_values]` IS all-movable (the reorder pass looks at it)
+    and already sorted by `(cost ≠ 1, cost)`, followed by the window: the hypotheses of
+    `optimise_sem_builder_partial` hold non-trivially -/
+example :
+    let rest : List (Node Part) :=
+      [.stateless [filterValuesOp isEven], .stateless [mapValuesOp add1], gbkNode,
+       combineValuesLiftedNode Comb.count.toCombiner, .stateless [mapOp Val.value],
+       combineGlobalNode Comb.sum.toCombiner (some 1)]
+    (∀ nd ∈ rest, Built nd) ∧ ∀ xs, ReorderInert (vecSource xs :: rest) := by
+  refine ⟨?_, ?_⟩
+  · intro nd hnd
+    simp only [List.mem_cons, List.mem_nil_iff, or_false] at hnd
+    rcases hnd with rfl | rfl | rfl | rfl | rfl | rfl
+    · refine .sub (.stateless _ ?_)
+      intro op hop ps
+      simp only [List.mem_singleton] at hop
+      subst hop
+      show List.filter _ ps.flatten = (ps.map (List.filter _)).flatten
+      rw [List.filter_flatten]
+    · refine .sub (.stateless _ ?_)
+      intro op hop ps
+      simp only [List.mem_singleton] at hop
+      subst hop
+      show List.map _ ps.flatten = (ps.map (List.map _)).flatten
+      rw [List.map_flatten]
+    · exact .sub .gbk
+    · exact .sub (.combineValuesLifted _ Eq lawful_count)
+    · refine .sub (.stateless _ ?_)
+      intro op hop ps
+      simp only [List.mem_singleton] at hop
+      subst hop
+      show List.map _ ps.flatten = (ps.map (List.map _)).flatten
+      rw [List.map_flatten]
+    · exact .sub (.combineGlobal _ Eq lawful_sum (some 1))
+  · intro xs
+    show InertChain (fuse _)
+    simp only [vecSource, fuse, gbkNode, combineValuesLiftedNode, combineGlobalNode, InertChain,
+      List.cons_append, List.nil_append, and_true]
+    refine ⟨?_, ?_⟩ <;> decide
 
 end IB
